@@ -66,6 +66,18 @@ func genC12(r *h.Rng, tier string, idx int) *h.Plan {
 	}
 	uniq := 0
 	total := 0
+	if p.Cfg["mode"] == nil && r.P(1, 4) {
+		// snapshot runs: the location starts with its three facts in place; the
+		// clients search (several candidates) and remove / add (several writes
+		// can land while one search is under way): a search result must be the
+		// matching set of one moment
+		p.Cfg["mode"] = "snapshot"
+		weights = []int{3, 4, 1, 5, 0, 0, 0, 0}
+		for _, id := range ids {
+			uniq++
+			p.Ops = append(p.Ops, h.Op{K: "addfact", Loc: "L", Id: id, C: -1, J: map[string]interface{}{"v": fmt.Sprintf("u%d", uniq), "tag": "a"}})
+		}
+	}
 	for c := 0; c < nc; c++ {
 		n := r.Range(1, 4)
 		for k := 0; k < n && total < 14; k++ {
@@ -537,6 +549,15 @@ func execC12(t *testing.T, plan *h.Plan, trace bool) *h.Result {
 				"action": map[string]interface{}{"code": "'mx'"}, "ttl": "1s"})
 			time.Sleep(time.Until(time.Now().Truncate(time.Second).Add(time.Second + 20*time.Millisecond)))
 		}
+		// prologue (client -1): requests made one after the other before the
+		// clients start; part of the history, ordered before everything else
+		var pro []c12Rec
+		for _, op := range plan.Ops {
+			if op.C == -1 {
+				k := int64(len(pro))
+				pro = append(pro, c12Rec{-1, op, -1000000 + 2*k, -1000000 + 2*k + 1, c12Do(loc, eng.Store, op)})
+			}
+		}
 		eng.Store.Yield = simrt.Yield
 		nc := int(plan.CfgI("clients", 2))
 		recs := make([][]c12Rec, nc)
@@ -562,7 +583,7 @@ func execC12(t *testing.T, plan *h.Plan, trace bool) *h.Result {
 			}
 		}
 		rep, ev := simrt.Run(tape, tr, 400000, clients)
-		var all []c12Rec
+		all := append([]c12Rec{}, pro...)
 		for _, rs := range recs {
 			all = append(all, rs...)
 		}
